@@ -511,16 +511,14 @@ theorem arrayAgg_refines (e : Expr) (v : Value) (vs : List Value) (r : Value) (h
 
 /-! ### STRING_AGG -/
 
-def strStep (delim : Bytes) (cur s : Bytes) : Bytes := if cur.isEmpty then s else cur ++ delim ++ s
-def strFold (delim : Bytes) (cur : Bytes) (ss : List Bytes) : Bytes := ss.foldl (strStep delim) cur
-def strFoldO (delim : Bytes) (x : Option Bytes) (ss : List Bytes) : Option Bytes :=
-  match ss with
+/-- one step of the running concatenation: the first text starts it, every later one is preceded by the delimiter -/
+def strStepO (delim : Bytes) (x : Option Bytes) (s : Bytes) : Bytes :=
+  match x with
+  | none => s
+  | some cur => cur ++ delim ++ s
+def strFoldO (delim : Bytes) (x : Option Bytes) : List Bytes → Option Bytes
   | [] => x
-  | _ => some (strFold delim (x.getD []) ss)
-
-theorem strFoldO_cons (delim : Bytes) (x : Option Bytes) (s : Bytes) (ss : List Bytes) :
-    strFoldO delim x (s :: ss) = strFoldO delim (some (strStep delim (x.getD []) s)) ss := by
-  cases ss <;> rfl
+  | s :: ss => strFoldO delim (some (strStepO delim x s)) ss
 
 theorem foldV_stringAgg (e : Expr) (delim : Bytes) (vs : List Value) (a : Option Aggregator) (x : Option Bytes)
     (ss : List Bytes) (h : texts (nonNull vs) = some ss) :
@@ -538,11 +536,11 @@ theorem foldV_stringAgg (e : Expr) (delim : Bytes) (vs : List Value) (a : Option
       rw [nonNull_cons_of_not_null rfl] at h
       obtain ⟨ss', h', hss⟩ := collect_eq_some_cons h
       subst hss
-      rw [strFoldO_cons]
-      have := ih (some (strStep delim (x.getD []) s)) ss' h'
+      simp only [strFoldO]
+      have := ih (some (strStepO delim x s)) ss' h'
       cases x with
-      | none => simpa [foldV, stepV, Outcome.bind, strStep] using this
-      | some cur => simpa [foldV, stepV, Outcome.bind, strStep] using this
+      | none => simpa [foldV, stepV, Outcome.bind, strStepO] using this
+      | some cur => simpa [foldV, stepV, Outcome.bind, strStepO] using this
     | int _ => simp [nonNull, isNull, texts, collect, asText] at h
     | real _ => simp [nonNull, isNull, texts, collect, asText] at h
     | bool _ => simp [nonNull, isNull, texts, collect, asText] at h
@@ -558,32 +556,19 @@ theorem joinTexts_cons (delim s : Bytes) (rest : List Bytes) : joinTexts delim (
   | cons t rest ih =>
     simp only [joinTexts, ih t, tailJoin, List.flatMap_cons, List.append_assoc]
 
-theorem strFold_nonempty (delim cur : Bytes) (ss : List Bytes) (hc : cur.isEmpty = false) :
-    strFold delim cur ss = cur ++ tailJoin delim ss := by
+theorem strFoldO_some (delim cur : Bytes) (ss : List Bytes) :
+    strFoldO delim (some cur) ss = some (cur ++ tailJoin delim ss) := by
   induction ss generalizing cur with
-  | nil => simp [strFold, tailJoin]
+  | nil => simp [strFoldO, tailJoin]
   | cons s ss ih =>
-    have hne : (cur ++ delim ++ s).isEmpty = false := by
-      cases cur <;> simp at hc ⊢
-    simp only [strFold, List.foldl_cons, strStep, hc, Bool.false_eq_true, if_false] at ih ⊢
-    rw [ih _ hne]
+    simp only [strFoldO, strStepO, ih]
     simp [tailJoin, List.flatMap_cons, List.append_assoc]
 
-/-- the running concatenation = the texts from the first non-empty one on, joined by the delimiter -/
-theorem strFold_nil (delim : Bytes) (ss : List Bytes) :
-    strFold delim [] ss = joinTexts delim (ss.dropWhile (·.isEmpty)) := by
-  induction ss with
-  | nil => rfl
-  | cons s ss ih =>
-    cases hs : s.isEmpty
-    · rw [List.dropWhile_cons_of_neg (by simp [hs]), joinTexts_cons]
-      have : strFold delim [] (s :: ss) = strFold delim s ss := by simp [strFold, strStep]
-      rw [this, strFold_nonempty delim s ss hs]
-    · rw [List.dropWhile_cons_of_pos (by simp [hs])]
-      have : s = [] := by cases s <;> simp at hs ⊢
-      subst this
-      have : strFold delim [] ([] :: ss) = strFold delim [] ss := by simp [strFold, strStep]
-      rw [this, ih]
+/-- the running concatenation from an empty cell = ALL the texts joined by the delimiter (an empty text is an element
+like any other) -/
+theorem strFoldO_none (delim s : Bytes) (ss : List Bytes) :
+    strFoldO delim none (s :: ss) = some (joinTexts delim (s :: ss)) := by
+  simp only [strFoldO, strStepO, strFoldO_some, joinTexts_cons]
 
 theorem texts_length {vs : List Value} {ss : List Bytes} (h : texts vs = some ss) : ss.length = vs.length := by
   induction vs generalizing ss with
@@ -613,7 +598,7 @@ theorem stringAgg_refines (e : Expr) (delim : Bytes) (vs : List Value) (r : Valu
     · rw [← h]
       cases ss with
       | nil => simp [shownValue, published, strFoldO, emptyGroupValue]
-      | cons s ss => simp [shownValue, published, strFoldO, strFold_nil]
+      | cons s ss => simp [shownValue, published, strFoldO_none]
     · simp only [createsEntry, published]
       cases ss with
       | nil =>
@@ -621,6 +606,6 @@ theorem stringAgg_refines (e : Expr) (delim : Bytes) (vs : List Value) (r : Valu
         simp [strFoldO, this]
       | cons s ss =>
         have : (nonNull vs).isEmpty = false := by cases hn : nonNull vs <;> simp [hn] at hlen ⊢
-        simp [strFoldO, this]
+        simp [strFoldO_none, this]
 
 end Sqlgrep
